@@ -179,6 +179,11 @@ func (mi *MessageInfo) unmarshalPointerEager(b []byte, p pointer, groupTag proto
 			if f.funcs.unmarshal == nil {
 				break
 			}
+			if f.isLazy && presence.Present(f.presenceIndex) && p.Apply(f.offset).AtomicGetPointer().IsNil() {
+				// The field is still held lazily from an earlier unmarshal:
+				// decode it before merging more data into it.
+				mi.lazyUnmarshal(p, f.num)
+			}
 			var o unmarshalOutput
 			o, err = f.funcs.unmarshal(b, p.Apply(f.offset), wtyp, f, opts)
 			n = o.n
